@@ -237,7 +237,8 @@ def run(ctx):
                 v, f = ev.call_function('keys.PublicKey.parse', [T.clsref(PUBKEY), T.sec(P, T.const(comp))])
                 same_pub(ob, ev, v, P, 'parse(sec(P, compressed=%s)) == P [%s]' % (comp, be), fsec.where)
             # "its compressed and uncompressed SEC encodings parse back to the same key": the objects parsed from the two
-            # encodings (and the one made from the point) compare equal and answer every default-argument request alike
+            # encodings (and the one made from the point) compare equal (which encoding an object prefers by default is not
+            # the property's business)
             objs = []
             for comp in (True, False):
                 o, _f = ev.call_function('keys.PublicKey.parse', [T.clsref(PUBKEY), T.sec(P, T.const(comp))])
@@ -249,9 +250,6 @@ def run(ctx):
                         continue
                     v, _ = ev.call_function('keys.PublicKey.__eq__', [oa, ob_])
                     same_term(ob, v, T.TRUE, '%s == %s [%s]' % (na, nb, be), fsec.where)
-                    va, _ = ev.call_function('keys.PublicKey.sec', [oa])
-                    vb, _ = ev.call_function('keys.PublicKey.sec', [ob_])
-                    same_term(ob, va, vb, 'sec() of %s and of %s [%s]' % (na, nb, be), fsec.where)
             check_history_free(ob, ev, _pub_obj(P, be), [('sec(compressed=%s)' % c_, 'keys.PublicKey.sec', {'compressed': T.const(c_)})
                                                          for c_ in (True, False)] + [('sec()', 'keys.PublicKey.sec', {})],
                                'PublicKey [%s]' % be, fsec.where)
